@@ -585,6 +585,9 @@ pub struct WorldCfg {
     /// Fault: heap allocations of indirect descriptor tables sometimes fail (the global allocator
     /// returns null for exactly that zero-initialised allocation).
     pub heap_faults: bool,
+    /// Judge accesses to feature-gated configuration fields (C08; only in scenarios where every
+    /// configuration access is a driver's own).
+    pub gate_config_fields: bool,
 }
 
 impl Default for WorldCfg {
@@ -605,6 +608,7 @@ impl Default for WorldCfg {
             hostile: false,
             scribble: false,
             heap_faults: false,
+            gate_config_fields: false,
         }
     }
 }
